@@ -320,7 +320,7 @@ func runC11(r *Run) error {
 	if r.Tier == "thorough" {
 		scens = 600
 	}
-	for _, w := range []string{"cancel-while-waiting", "fetch-fails-once", "fetch-fails-many"} {
+	for _, w := range []string{"cancel-while-waiting", "fetch-fails-once", "fetch-fails-many", "request-while-fetch-is-failing"} {
 		if err := c11Forced(r, w); err != nil {
 			return err
 		}
@@ -637,6 +637,13 @@ func c11Forced(r *Run, which string) error {
 	}
 	heads := s.Stores[0].OpLog().Heads().Slice()
 	hk := heads[0].GetHash().String()
+	ak := hk // an ancestor of the head (the entry written first)
+	for _, e := range s.Stores[0].OpLog().Values().Slice() {
+		if e.GetHash().String() != hk {
+			ak = e.GetHash().String()
+			break
+		}
+	}
 	ctx1, cancel1 := context.WithCancel(context.Background())
 	defer cancel1()
 	loadEv := func(c int) string { return fmt.Sprintf("ELoad %s %s", sim.CoqN(c), sim.CoqListN(g.nums(hashesOf(heads)))) }
@@ -669,6 +676,36 @@ func c11Forced(r *Run, which string) error {
 		g.emit(loadEv(1))
 		g.quiesce(0, nil, "failed fetch")
 		s.Reps[1].API.FailGet(hk, false)
+		g.emit("EFail []")
+	case "request-while-fetch-is-failing":
+		// (the failing hash is the ANCESTOR of the requested head: it is only ever requested by
+		// hash, as a link of the head or as a retry)
+		// the fetch of h has failed but its worker is held before it records the outcome (the
+		// schedule point replicator.before_done: for the bookkeeping the fetch is still in
+		// progress); a second request for the same head arrives in that window; the worker
+		// goes on.  Later requests must still retry h.
+		s.Reps[1].API.FailGet(ak, true)
+		failed++
+		g.emit("EFail " + sim.CoqListN([]int{g.num(ak)}))
+		gt := sim.TheHooks.Park("replicator.before_done", ak, 1)
+		g.emit("EHoldFetch " + sim.CoqListN([]int{g.num(ak)}))
+		if err := g.store.Sync(ctx1, copyHeads(heads)); err != nil {
+			return err
+		}
+		g.emit(loadEv(1))
+		if !gt.WaitArrived(20 * time.Second) {
+			g.hang, g.hangAt = true, "worker never reached the end of its failed fetch"
+		}
+		if err := g.store.Sync(context.Background(), copyHeads(heads)); err != nil {
+			return err
+		}
+		g.emit(loadEv(2))
+		time.Sleep(50 * time.Millisecond)
+		gt.Release()
+		g.emit("EFetch " + sim.CoqN(g.num(ak)))
+		g.emit("ERelease")
+		g.quiesce(0, nil, "failed fetch recorded")
+		s.Reps[1].API.FailGet(ak, false)
 		g.emit("EFail []")
 	case "fetch-fails-many":
 		// more failed fetches than the replicator has fetch slots (32): every failure must give
